@@ -17,7 +17,7 @@ def num_machines_of(jobs) -> int:
 
 def dispatch_scenario(rng: random.Random, *, family=None, with_invalid=True, stop_early=True,
                       replay=False, queries=False, max_jobs=4, max_machines=4, max_ops=4,
-                      flt="random", huge=True, observers=False) -> Scenario:
+                      flt="random", huge=True, observers=False, peeks=False) -> Scenario:
     """new / inst / filter / a random valid dispatch history with `snap` after every accepted dispatch,
     invalid requests injected at random positions, optionally reset + replay of the accepted history."""
     family, jobs = gen.gen_instance(rng, family, max_jobs=max_jobs, max_machines=max_machines, max_ops=max_ops)
@@ -51,6 +51,13 @@ def dispatch_scenario(rng: random.Random, *, family=None, with_invalid=True, sto
                 lines.append(f"disp {j} {p} {m}")
                 lines.append("snap")
                 n_invalid += 1
+        if peeks and rng.random() < 0.12:
+            # a look-ahead: some request (valid, or not) is tried on a deep copy of the dispatcher; the original goes on undisturbed
+            pj, pp, pm = gen.gen_valid_request(rng, tr, "uniform")
+            if rng.random() < 0.2:
+                pp = pp + 1
+            lines.append(f"peek {pj} {pp} {pm}")
+            lines.append("snap")
         j, p, m = gen.gen_valid_request(rng, tr, style)
         tr.take(j)
         accepted.append((j, p, m))
